@@ -244,7 +244,7 @@ def body_pad(cfg, l0, l1, l2):
             elif fields == "seq+scalar":
                 s = (seq, b + 100)
             else:
-                s = (seq, torch.ones(max(L - 1, 0) + 1) * (b + 1))
+                s = (seq, torch.ones(L // 2 + 1) * (b + 1))  # second sequence field with its own, smaller maximum
             if with_ctx:
                 s = (s, {"k": b + 7})
             samples.append(s)
@@ -269,7 +269,7 @@ def body_pad(cfg, l0, l1, l2):
     if fields == "seq+scalar" and out[1].tolist() != [b + 100 for b in range(B)]:
         return fail("non-sequence field not default-collated")
     if fields == "seq+seq":
-        M2 = max(max(L - 1, 0) + 1 for L in lens)
+        M2 = max(L // 2 + 1 for L in lens)
         if tuple(out[1].shape) != (B, M2):
             return fail("second sequence field not padded to its own maximum")
     return True
